@@ -8,7 +8,11 @@ META = dict(
   outside=['RectClipLines64::ExecuteInternal as a whole, GetPath, crossing-point accuracy'],
 )
 SEG = {'Clipper2Lib::GetSegmentIntersection(': 'stub_segint'}
+WHOLE = {'Clipper2Lib::GetSegmentIntersection(': 'stub_segint_pt',
+         'Clipper2Lib::OutPt2& std::deque<Clipper2Lib::OutPt2, std::allocator<Clipper2Lib::OutPt2> >::emplace_back<Clipper2Lib::OutPt2>(': 'stub_pool_outpt2',
+         'Clipper2Lib::OutPt2*& std::vector<Clipper2Lib::OutPt2*, std::allocator<Clipper2Lib::OutPt2*> >::emplace_back<Clipper2Lib::OutPt2*&>(': 'stub_oplist_append'}
 OBLIGATIONS = [
+  O('C09.a-lines-internal-symbolic', 'rect_units.cpp', 'harness_lines_internal', defs=['LIL=5'], replace=WHOLE, unwind=4, unwindset=['_ZN11Clipper2Lib10RectClip64C2ERKNS_4RectIlEE.0:9', '_ZNSt11_Deque_baseIN11Clipper2Lib6OutPt2ESaIS1_EE15_M_create_nodesEPPS1_S5_.0:3', 'harness_lines_internal.0:5', 'harness_lines_internal.1:5', 'harness_lines_internal.2:5'], backend=['kissat', 'cadical'], timeout=1500, tiers='x', bound='one segment and one rectangle, all coordinates |c|<=32, general position', desc='whole RectClipLines64::ExecuteInternal: at most one piece; a piece exists iff part of the segment is inside; its ends are the inside input end points or boundary points; inside the rectangle; in input direction; within one unit of the input line'),
 ] + [O('C09.b-getintersection-closest-loc%d' % l, 'rect_units.cpp', 'harness_getintersection', defs=['LOC0=%d' % l, 'GIL=4'], replace=SEG, unwind=6, backend=['kissat', 'cadical'], timeout=300, tiers='qt' if l in (0, 3) else 't', bound='all rectangles and segments with |coord|<=16 in general position, p strictly in half-plane %d (0=Left,1=Top,2=Right,3=Bottom)' % l, desc='GetIntersection succeeds iff the segment properly crosses the rectangle boundary and reports the entry edge (the crossing closest to p)') for l in range(4)] + [  O('C09.a-lines-sequence', 'rect_units.cpp', 'harness_lines_sequence', unwind=12, timeout=300, bound='a crossing line (symbolic y), a single point inside (symbolic), an inside segment; two Execute calls', desc='RectClipLines64::Execute returns the two pieces, is memory safe on one-point paths and repeats on the same object'),
   O('C09.b-getnextlocation', 'rect_units.cpp', 'harness_getnextlocation', replace=ADD, unwind=10, bound='3-vertex polyline, any start index and start location', desc='skipped vertices stay in the start region; inside vertices are emitted in input order; the stop vertex lies in the named region'),
   O('C09.b-getlocation', 'rect_units.cpp', 'harness_getlocation', bound='all rectangles/points up to 2^40', desc='boundary points are classified as on the rectangle (kept), others by region'),
